@@ -14,9 +14,13 @@ for d in sorted(glob.glob('/verif/seeded/*/')):
     what=m.get('summary') or first
     what=re.sub(r'\s+',' ',what)[:170]
     caught=m.get('caught_by',[])
+    if m.get('superseded'):
+        rows.append((name,m['breaks_property'],what,'n/a: neutralised by a later fix commit (see meta.json)', m.get('tier','quick'), m.get('strengthened','')))
+        continue
     own=m['breaks_property'] in caught
     rows.append((name,m['breaks_property'],what,', '.join(caught) if caught else '**missed**', m.get('tier','quick'), m.get('strengthened','')))
 print("| Seeded change | Property | What it does / needs | Caught by | Tier | Strengthening it triggered |")
 print("|---|---|---|---|---|---|")
 for r in rows: print("| "+" | ".join(r)+" |")
-print(f"\n{sum(1 for r in rows if r[3]!='**missed**')} of {len(rows)} seeded changes are caught.")
+live=[r for r in rows if not r[3].startswith('n/a')]
+print(f"\n{sum(1 for r in live if r[3]!='**missed**')} of {len(live)} seeded changes that still break a property on the current tree are caught ({len(rows)-len(live)} neutralised by a later fix).")
